@@ -100,7 +100,7 @@ Theorem C07_gen_FilterProposals_decisions : forall t i s,
   let r := cget t (it_w i) (s_cache s) in
   g_coord_FilterProposals_body (opt_ok r) (e_pend (getv r)) (Z.of_N (it_ut i)) (Z.of_N UT_LOG)
                                (Z.of_N (e_tt (getv r))) (Z.of_N PERFORM)
-  = if keep_proposal t i s then ([1], Fall) else ([], Cont).
+  = if keep_proposal t i s then ([1], Fall) else ([], Fall).
 Proof. exact gen_coord_FilterProposals. Qed.
 Print Assumptions C07_gen_FilterProposals_decisions.
 
